@@ -1,8 +1,10 @@
 /- Operation table of the model driver: one import and one `++` entry per ops module
    (regenerate with tools/gen_table.py after adding a module). -/
 import Driver.Ops.C03
+import Driver.Ops.C06
 import Driver.Ops.C07
 import Driver.Ops.C12
+import Driver.Ops.C15
 import Driver.Ops.C17
 import Driver.Ops.C18
 import Driver.Ops.Std
@@ -11,8 +13,10 @@ namespace ZVD
 def allOps : OpTable :=
   [("ping", fun _ => pure "ok pong")]
   ++ opsC03
+  ++ opsC06
   ++ opsC07
   ++ opsC12
+  ++ opsC15
   ++ opsC17
   ++ opsC18
   ++ opsStd
